@@ -148,7 +148,7 @@ func explore(r *ev.Run, d *dynResult, block int, bound, pairCap int, exec func()
 		report("plain-repeat", "two executions under the same order", where{}, nil, d0, d1)
 	}
 	if tr.Iterations > len(tr.Sizes) {
-		r.HarnessError("block %d: %d map iterations exceed the trace buffer", block, tr.Iterations)
+		bail(r, "block %d: %d map iterations exceed the trace buffer", block, tr.Iterations)
 	}
 	var sites []int
 	for i, sz := range tr.Sizes {
@@ -211,12 +211,12 @@ func dynamicPart(r *ev.Run) *dynResult {
 	vals := polyenv.Keys(5)
 	polyenv.Setup(0, vals)
 	dir := polyenv.TmpDir("c16chain")
-	defer os.RemoveAll(dir)
+	scratch = append(scratch, dir) // removed by cleanScratch (main) or bail
 	ch, err := polyenv.OpenChain(dir, vals)
 	if err != nil {
-		r.HarnessError("open chain: %v", err)
+		bail(r, "open chain: %v", err)
 	}
-	defer ch.Close()
+	defer ch.Close() // the directory itself is removed after the static part has reported
 	ledger.DefLedger = ledger.VerifNewLedger(ch.L)
 
 	c := &corpus{vals: vals, rip: newRippleEnv(), btc: newBtcEnv(), msc: newMscEnv()}
@@ -250,10 +250,10 @@ func dynamicPart(r *ev.Run) *dynResult {
 		var err error
 		maporder.Run(nil, 0, func() { res, err = ch.Commit(blk) })
 		if err != nil {
-			r.HarnessError("commit block %d (%s): %v", bi, st.name, err)
+			bail(r, "commit block %d (%s): %v", bi, st.name, err)
 		}
 		if len(res.Notify) != len(items) {
-			r.HarnessError("block %d: %d results for %d transactions", bi, len(res.Notify), len(items))
+			bail(r, "block %d: %d results for %d transactions", bi, len(res.Notify), len(items))
 		}
 		nok := 0
 		for i, n := range res.Notify {
@@ -269,7 +269,7 @@ func dynamicPart(r *ev.Run) *dynResult {
 					r.Capped(fmt.Sprintf("corpus cut short at block %d: an outcome changed after a violation", bi))
 					return d
 				}
-				r.HarnessError("corpus block %d (%s) tx %d %s: success=%v, expected %v (VERIF_C16_DEBUG=1 prints the contract error)", bi, st.name, i, items[i].name, got, items[i].want)
+				bail(r, "corpus block %d (%s) tx %d %s: success=%v, expected %v (VERIF_C16_DEBUG=1 prints the contract error)", bi, st.name, i, items[i].name, got, items[i].want)
 			}
 		}
 		c.events = append(c.events, res.Notify...)
@@ -305,7 +305,7 @@ func dynamicPart(r *ev.Run) *dynResult {
 	r.Note("corpus_tx_failed", d.failTx)
 	r.Note("corpus_methods", d.methods)
 	if r.NViolations() == 0 && (d.okTx < 120 || d.failTx < 5) {
-		r.HarnessError("corpus degenerate: %d successful / %d failed transactions", d.okTx, d.failTx)
+		bail(r, "corpus degenerate: %d successful / %d failed transactions", d.okTx, d.failTx)
 	}
 	return d
 }
@@ -410,6 +410,6 @@ func siteEvidence(r *ev.Run, d *dynResult, sites []*Site, pkgs int) {
 	r.Note("map_iterations_in_repo_code_outside_listed_packages", unlisted)
 	r.Note("map_iterations_in_third_party_code", other)
 	if covered < 20 {
-		r.HarnessError("only %d of %d map-iteration sites were explored with >= 2 entries", covered, total)
+		bail(r, "only %d of %d map-iteration sites were explored with >= 2 entries", covered, total)
 	}
 }
